@@ -121,6 +121,10 @@ impl LoggerHandle {
             writers_handle: WritersHandle {
                 spec,
                 spec_stack: Vec::default(),
+                _shutdown_guard: Arc::new(ShutdownGuard {
+                    primary_writer: Arc::clone(&primary_writer),
+                    other_writers: Arc::clone(&other_writers),
+                }),
                 primary_writer,
                 other_writers,
             },
@@ -502,6 +506,8 @@ pub(crate) struct WritersHandle {
     spec_stack: Vec<LogSpecification>,
     primary_writer: Arc<PrimaryWriter>,
     other_writers: Arc<HashMap<String, Box<dyn LogWriter>>>,
+    // shuts down the writers when the last clone of the handle is dropped
+    _shutdown_guard: Arc<ShutdownGuard>,
 }
 impl WritersHandle {
     fn set_new_spec(&self, new_spec: LogSpecification) -> Result<(), FlexiLoggerError> {
@@ -527,7 +533,12 @@ impl WritersHandle {
         log::set_max_level(max_level);
     }
 }
-impl Drop for WritersHandle {
+// Is shared by all clones of a handle, and is thus dropped together with the last of them
+struct ShutdownGuard {
+    primary_writer: Arc<PrimaryWriter>,
+    other_writers: Arc<HashMap<String, Box<dyn LogWriter>>>,
+}
+impl Drop for ShutdownGuard {
     fn drop(&mut self) {
         self.primary_writer.shutdown();
         for writer in self.other_writers.values() {
